@@ -720,6 +720,7 @@ class QscFile:
         zeros, pads, scal, consts = {}, [], [], []
         even, even_pos, signs = 'none', None, []
         sets_nf, names_pos, calc_pos, nphi_pos, last_assign = False, None, [], None, -1
+        bound_attrs = set()
         body = strip_doc(fn.body)
         for i, s in enumerate(body):
             if isinstance(s, ast.Assign) and len(s.targets) == 1 and isinstance(s.targets[0], ast.Name):
@@ -740,6 +741,9 @@ class QscFile:
             elif isinstance(s, ast.Assign) and len(s.targets) == 1 and is_self_attr(s.targets[0]):
                 attr, v = s.targets[0].attr, s.value
                 last_assign = i
+                if attr in bound_attrs:
+                    self.err(s, '__init__: attribute %s is bound twice' % attr)
+                bound_attrs.add(attr)
                 if isinstance(v, ast.Call) and func_name(v) == 'np.zeros' and len(v.args) == 1 and not v.keywords \
                         and isinstance(v.args[0], ast.Name) and v.args[0].id == nf_var:
                     zeros[attr] = True
